@@ -355,3 +355,52 @@ Fixpoint ctx_ok (prevnum : bool) (toks : list stok2) : bool :=
       (negb (is_incdec t) || (negb prevnum && match r with b :: _ => negb (is_num_tok b) | [] => true end)) &&
       ctx_ok (is_num_tok t) r
   end.
+
+(* ------------------------------------------------------------------ stage 3: comments inside separators *)
+Inductive sitem := SBlank (c : N) | SBlock (body : str) | SLine (body : str).
+
+Definition sitem_str (i : sitem) : str :=
+  match i with
+  | SBlank c => [c]
+  | SBlock b => 47 :: 42 :: b ++ [42; 47]
+  | SLine b => 47 :: 47 :: b ++ [10]
+  end.
+
+(* comment bodies of the theorem: no star, slash, backslash, CR inside a block comment; no LF, backslash, CR in a line comment *)
+Definition sitem_ok (i : sitem) : bool :=
+  match i with
+  | SBlank c => is_blank c
+  | SBlock b => forallb (fun c => negb (one_of c [42; 47; 92; 13])) b
+  | SLine b => forallb (fun c => negb (one_of c [10; 92; 13])) b
+  end.
+
+Definition sep_str (s : list sitem) : str := flat_map sitem_str s.
+Definition starts_comment (s : list sitem) : bool := match s with (SBlock _ | SLine _) :: _ => true | _ => false end.
+Definition is_slash (t : stok2) : bool := match t with TOp c => c =? 47 | _ => false end.
+
+(* separators: non-empty between two names and between two operators; a comment never directly after the operator slash *)
+Fixpoint sep3_ok (ws : list (list sitem)) (toks : list stok2) : bool :=
+  match toks, ws with
+  | a :: r, _ :: ((w :: _) as ws') =>
+      (negb (is_slash a) || negb (starts_comment w)) &&
+      match r with
+      | b :: _ => negb (needs_sep2 a b) || match w with [] => false | _ => true end
+      | [] => true
+      end && sep3_ok ws' r
+  | _, _ => true
+  end.
+
+Fixpoint render3 (ws : list (list sitem)) (toks : list stok2) : str :=
+  match ws, toks with
+  | w :: ws', t :: r => sep_str w ++ stok2_str t ++ render3 ws' r
+  | w :: _, [] => sep_str w
+  | [], _ => []
+  end.
+
+Fixpoint positions3 (ws : list (list sitem)) (toks : list stok2) (line col : N) : list (N * N) :=
+  match ws, toks with
+  | w :: ws', t :: r =>
+      let '(l1, c1) := adjust (sep_str w) line col in
+      (l1, c1) :: positions3 ws' r l1 (c1 + len (stok2_str t))
+  | _, _ => []
+  end.
